@@ -8,9 +8,10 @@ Inductive value :=
 | VNil
 | VBool (b : bool)
 | VInt (z : Z)
-| VVec (l : list value).
+| VVec (l : list value)
+| VExc (cls : N) (payload : value).   (* an exception object (used by the C01X extension) *)
 
-Inductive prim := PTrace | PVec | PConj | PInc | PLt.
+Inductive prim := PTrace | PVec | PConj | PInc | PLt | PMkExc (cls : N).
 
 Definition trace := list value.
 
@@ -34,6 +35,7 @@ Definition apply_prim (f : prim) (vs : list value) : option (value * trace) :=
   | PConj, [VVec l; v] => Some (VVec (l ++ [v]), [])
   | PInc, [VInt z] => Some (VInt (z + 1), [])
   | PLt, [VInt a; VInt b] => Some (VBool (Z.ltb a b), [])
+  | PMkExc c, [v] => Some (VExc c v, [])
   | _, _ => None                      (* ill-typed call: outside the well-formed fragment *)
   end.
 
